@@ -259,6 +259,8 @@ where
             }}
 
             let isdone = self.info.check_termination(&self.residuals, &self.settings, iter);
+            #[cfg(feature = "verif-hooks")]
+            crate::verif_hooks::observer::flag("isdone", (isdone, self.info.get_status(), iter));
 
             // check for termination due to slow progress and update strategy
             if isdone{
@@ -321,6 +323,11 @@ where
                 // --------------
                 α = self.get_step_length(StepDirection::Affine, scaling);
                 σ = self.centering_parameter(α);
+                #[cfg(feature = "verif-hooks")]
+                {
+                    crate::verif_hooks::observer::scalar("alpha_aff", α);
+                    crate::verif_hooks::observer::scalar("sigma", σ);
+                }
 
                 // make a reduced Mehrotra correction in the first iteration
                 // to accommodate badly centred starting points
@@ -550,6 +557,8 @@ mod internal {
                     output = StrategyCheckpoint::Fail;
                 }
             }
+            #[cfg(feature = "verif-hooks")]
+            crate::verif_hooks::observer::flag("insufficient_progress", output);
             output
         }
 
@@ -571,6 +580,8 @@ mod internal {
                 self.info.set_status(SolverStatus::NumericalError);
                 output = StrategyCheckpoint::Fail;
             }
+            #[cfg(feature = "verif-hooks")]
+            crate::verif_hooks::observer::flag("numerical_error", (is_kkt_solve_success, output));
             output
         }
 
@@ -593,6 +604,11 @@ mod internal {
                 output = StrategyCheckpoint::NoUpdate;
             }
 
+            #[cfg(feature = "verif-hooks")]
+            {
+                crate::verif_hooks::observer::scalar("alpha", α);
+                crate::verif_hooks::observer::flag("small_step", output);
+            }
             output
         }
 
@@ -601,6 +617,8 @@ mod internal {
             is_scaling_success: bool,
             _scaling: ScalingStrategy,
         ) -> StrategyCheckpoint {
+            #[cfg(feature = "verif-hooks")]
+            crate::verif_hooks::observer::flag("scaling_success", (is_scaling_success, _scaling));
             if is_scaling_success {
                 StrategyCheckpoint::NoUpdate
             } else {
